@@ -203,6 +203,73 @@ def run(ctx):
                       "a position is read from the cursor after a sub-expression was parsed in the same "
                       "argument list: the node gets the position of the operand's last token, not of its own "
                       "first token")
+    # the same along control flow: `lexer.getPos()` is the position of the token consumed last; when, on some path,
+    # the last cursor event before the read was a sub-parse (not a match / next of this construct's own token), the
+    # value read is the position of the operand's last token
+    from ..cfg import CFG
+    PARSE_HELPERS = {"_invoke", "_call", "_deref", "invoke", "deref_or_invoke", "deref_or_call_or_invoke",
+                     "collect_predicate_min_max_exact"}
+    lexer_funcs = {fn.name for fn in parser.funcs.values() if "lexer" in fn.params}
+
+    def cursor_events(a):
+        out = []
+
+        def visit(x):
+            for ch in ast.iter_child_nodes(x):
+                visit(ch)
+            if isinstance(x, ast.Call):
+                fn = norm(x.func)
+                if fn.startswith("parse_") or fn in PARSE_HELPERS or (fn in lexer_funcs and not fn.startswith("at_")):
+                    out.append(("parse", x))
+                elif fn in ("lexer.matchIf", "lexer.match", "lexer.next", "lexer.matchIdentifier", "lexer.eat",
+                            "lexer.previous"):
+                    out.append(("consume", x))
+                elif fn == "lexer.getPos":
+                    out.append(("pos", x))
+        visit(a)
+        return out
+
+    n_reads = 0
+    for f in parser.funcs.values():
+        if not any(isinstance(x, ast.Call) and norm(x.func) == "lexer.getPos" for x in ast.walk(f.node)):
+            continue
+        g = CFG(f.node, implicit_exc=False)
+
+        def step(state, a):
+            for k, x in cursor_events(a):
+                if k == "parse":
+                    state = frozenset({"after-subparse"})
+                elif k == "consume":
+                    state = frozenset({"after-token"})
+            return state
+
+        def transfer(node, label, state):
+            a = node.ast
+            if a is None:
+                return state
+            return step(state, a.iter if node.kind == "for" else a)
+
+        st = g.dataflow(frozenset({"after-token"}), transfer, lambda x, y: x | y)
+        for node in g.nodes:
+            a = node.ast
+            if a is None or node.id not in st:
+                continue
+            a = a.iter if node.kind == "for" else a
+            state = st[node.id]
+            for k, x in cursor_events(a):
+                if k == "parse":
+                    state = frozenset({"after-subparse"})
+                elif k == "consume":
+                    state = frozenset({"after-token"})
+                else:
+                    n_reads += 1
+                    ctx.check("C20.capture", f, x, "after-subparse" not in state,
+                              "lexer.getPos() is read on a path where the last thing that moved the cursor was a "
+                              "sub-parse: the position obtained is that of the operand's last token, not of this "
+                              "construct's own token", expr=f"getPos after sub-parse in {norm(a)[:60]}",
+                              site=f"{f.qual}: getPos() read right after this construct's own token [{norm(a)[:50]}]")
+    if n_reads < 15:
+        ctx.broken("parser.py", f"only {n_reads} lexer.getPos() reads found")
     # positions handed to nodes come from a token, the cursor or a captured local
     npos = 0
     for f in parser.funcs.values():
@@ -307,6 +374,32 @@ def run(ctx):
                 cnt += 1
     ctx.note(f"{cnt} direct asX() conversions in nodes.py/functions.py raise position-less errors on failure "
              f"(not judged)")
+
+    # a stray break / continue is reported where the keyword stands, not where the function was called
+    from .common import signal_first_exit, raised_ctors
+    for qual in (("FuncLambda", "execute"), ("Interpreter", "interpret")):
+        m = model.method(P, *qual)
+        for sig in ("isBreak", "isContinue"):
+            var, st_ = signal_first_exit(m, sig)
+            if var is None:
+                ctx.broken(m.qual, "evaluation of the body / script not found")
+            cs = raised_ctors(model, m, st_.exc) if isinstance(st_, ast.Raise) and st_.exc is not None else None
+            if not cs:
+                continue        # C04.signal reports a missing rejection
+            args3 = []
+            for c_ in cs:
+                if len(c_.args) >= 3:
+                    args3.append(c_.args[2])
+            # through a helper the position is the helper's parameter: look at the raise expression's own arguments
+            exprs = args3 if all(any(isinstance(x, ast.Name) and x.id == var for x in ast.walk(a)) for a in args3) \
+                and args3 else ([st_.exc] if isinstance(st_.exc, ast.Call) else [])
+            ok = bool(exprs) and all(any(isinstance(x, ast.Attribute) and x.attr == "pos" and any(
+                isinstance(y, ast.Name) and y.id == var for y in ast.walk(x)) for x in ast.walk(e)) for e in exprs)
+            ctx.check("C20.pos", m, st_, ok,
+                      f"a stray `{sig[2:].lower()}` is reported with a position that does not come from the signal "
+                      f"(`{var}...pos`): the error points at the call site instead of the keyword",
+                      expr=f"{m.qual} stray {sig[2:].lower()} position",
+                      site=f"{m.qual}: stray {sig[2:].lower()} carries the keyword's position")
 
     # ------------------------------------------------------------ C20.trace
     inv = model.func(P, "nodes", "invoke")
